@@ -108,9 +108,12 @@ class MemoryStore(object):
     def iterate(self):
         for index in range(len(self.keys)):
             if self.state[index] is not rs.state.markers.STATE_CLEARED.value():
+                value = self.values[index]
+                if self.data_type is bool:
+                    value = bool(value)
                 yield (
                     self.keys[index],
-                    self.values[index],
+                    value,
                     self.state[index] == rs.state.markers.STATE_SET.value(),
                 )
 
